@@ -61,26 +61,27 @@ type drv struct {
 	prog                               int64 // progress counter for the watchdog
 
 	// fault injection (c08)
-	plan         *faultPlan
-	matchSeen    int
-	injected     int
-	healed       bool
-	dirty        bool // a fault was injected since the last successful open
-	opCount      map[string]int
-	afterFault   int
-	failedWrites int
-	curCall      string
-	curBg        string // a table compaction below level 0 is running (fault positions inside it are of interest)
-	hot          map[string][]string
-	postHeal     bool
-	lastKeys     []int
-	summary      func() map[string]interface{}
-	known        map[int64]bool
-	kmu          sync.Mutex
-	installs     int
-	pinned       bool
-	sharedOpts   *opt.Options
-	fmu          sync.Mutex
+	plan            *faultPlan
+	matchSeen       int
+	injected        int
+	healed          bool
+	dirty           bool // a fault was injected since the last successful open
+	opCount         map[string]int
+	afterFault      int
+	failedWrites    int
+	curCall         string
+	curBg           string // a table compaction below level 0 is running (fault positions inside it are of interest)
+	hot             map[string][]string
+	postHeal        bool
+	sleptAfterClose bool
+	lastKeys        []int
+	summary         func() map[string]interface{}
+	known           map[int64]bool
+	kmu             sync.Mutex
+	installs        int
+	pinned          bool
+	sharedOpts      *opt.Options
+	fmu             sync.Mutex
 }
 
 // faultPlan: fail the idx-th .. (idx+count-1)-th operation of (kind, file type); count 0 = until healed.
@@ -354,7 +355,7 @@ func xhash(b []byte) uint32 {
 	}
 	return h
 }
-func (exactFilter) Name() string { return "verif.ExactHashFilter" }
+func (exactFilter) Name() string                         { return "verif.ExactHashFilter" }
 func (exactFilter) NewGenerator() filter.FilterGenerator { return &exactGen{} }
 func (exactFilter) Contains(f, key []byte) bool {
 	h := xhash(key)
@@ -813,6 +814,15 @@ func (d *drv) doIterMove(h int, it iterator.Iterator) {
 	}
 	if err := it.Error(); err != nil && err != leveldb.ErrIterReleased {
 		d.emit(vt.Ev{"ev": "note", "what": "iter-error", "h": h, "err": d.ename(err)})
+		if d.plan != nil && d.ename(err) == "fail" {
+			// an iterator that hit an injected storage fault has stopped for good (its error is sticky): not a move of the
+			// cursor the contract describes; give it back
+			it.Release()
+			d.emit(vt.Ev{"ev": "iterrel", "h": h})
+			delete(d.its, h)
+			delete(d.itRaw, h)
+			return
+		}
 	}
 	d.emit(vt.Ev{"ev": "iter", "h": h, "mv": mv, "arg": arg, "ok": b2i(ok), "k": k, "v": v})
 }
@@ -1161,6 +1171,27 @@ func (d *drv) stepC18() {
 				}
 			}
 			d.releaseAll()
+			if d.rng.Intn(2) == 0 {
+				// iterators that outlive Close are only released afterwards (TestDB_GracefulClose does the same): releasing
+				// them must be harmless whenever it happens, also once the DB's background goroutines have wound down
+				src := "db"
+				if d.tx != nil {
+					src = "tx"
+				}
+				d.doIterNew(src)
+				for h, it := range d.its {
+					d.walk(h, it, 2+d.rng.Intn(4))
+				}
+				d.doClose()
+				if !d.sleptAfterClose {
+					d.sleptAfterClose = true
+					time.Sleep(1200 * time.Millisecond)
+				}
+				for h, it := range d.its {
+					d.doIterRel(h, it)
+				}
+				return
+			}
 			d.doClose()
 		default:
 			d.releaseAll()
